@@ -1308,7 +1308,13 @@ def oracle(c, obs):
                 crels = [ri for ri, r in enumerate(rels) if r[1] == objcls[ch]]
                 for ri, v in zip(crels, fks):
                     if v is not None and v not in rws and rels[ri][2] & DO:
-                        tag = "F2" if (v in before["mk"] and ch not in before["mk"] and ch in before["coll"].get((v, ri), ())) else "X"
+                        tag = "X"
+                        if v in before["mk"] and ch not in before["mk"] and ch in before["coll"].get((v, ri), ()):
+                            tag = "F2"
+                        elif ch in before["mk"] and any(
+                            ch in cs and before["st"][q] in _IN and q not in before["mk"] for (q, rj), cs in before["coll"].items()
+                        ):
+                            tag = "F3"
                         return "%s: row %d references parent %d through delete-orphan relationship r%d but the parent row is gone" % (tag, ch, v, ri)
             at_flush = {}
             for (q, ri), cs in after["coll"].items():
@@ -1322,6 +1328,8 @@ def match_finding(c, what):
         return "C39-pending-child-moved-expunged"
     if what.startswith("F2:"):
         return "C39-append-to-deleted-parent-dangling-row"
+    if what.startswith("F3:"):
+        return "C39-delete-cancelled-by-pending-parent"
     return None
 
 
